@@ -5,27 +5,33 @@ Import ListNotations.
 
 (* ---- weights regenerated from ewald2d.py ---- *)
 Open Scope R_scope.
+(* The proofs below do not depend on how the source spells the arguments of exp/erfc/erf (g * -z, -(g*z), (-g)*z, ...):
+   every argument of F is replaced by its ring normal form, so that arguments equal as polynomials become syntactically equal. *)
+Ltac canon_step F :=
+  match goal with
+  | |- context [F ?a] =>
+      let x := fresh "arg" in let Hx := fresh "Harg" in
+      pose (x := a); assert (Hx : x = a) by reflexivity; ring_simplify in Hx;
+      match type of Hx with _ = ?a' => tryif constr_eq a a' then fail else (replace a with a' by ring) end; clear Hx; clear x
+  end.
+Ltac canon_arg F := do 12 (try canon_step F).
+
 Theorem recip_weight_even g z alpha A P (erfc : R -> R) : w2d_recip g (- z) alpha A P erfc = w2d_recip g z alpha A P erfc.
-Proof.
-  unfold w2d_recip. f_equal.
-  replace (g * - z) with (- g * z) by ring. replace (- g * - z) with (g * z) by ring.
-  replace (g / (2 * alpha) + alpha * - z) with (g / (2 * alpha) - alpha * z) by ring.
-  replace (g / (2 * alpha) - alpha * - z) with (g / (2 * alpha) + alpha * z) by ring. ring.
-Qed.
+Proof. unfold w2d_recip. canon_arg exp. canon_arg erfc. ring. Qed.
 Theorem charge_weight_even z alpha A P (erf : R -> R) : (forall x, erf (- x) = - erf x) ->
   w2d_charge (- z) alpha A P erf = w2d_charge z alpha A P erf.
 Proof.
-  intros Hodd. unfold w2d_charge. f_equal.
-  replace (alpha * - z) with (- (alpha * z)) by ring. rewrite Hodd.
-  replace ((- z) ^ 2) with (z ^ 2) by ring. ring.
+  intros Hodd. unfold w2d_charge.
+  match goal with |- context [erf ?a] => match goal with |- context [erf ?b] =>
+    tryif constr_eq a b then fail else (replace a with (- b) by ring; rewrite (Hodd b)) end end.
+  canon_arg exp. ring.
 Qed.
 (* the self term is  -alpha/sqrt(pi) q2  +  (sum of the z = 0 reciprocal weights) q2  +  (k = 0 weight at z = 0) q2 *)
 Theorem self_term_limit alpha A P sumW q2 (erf : R -> R) : erf 0 = 0 -> 0 < P -> alpha <> 0 -> A <> 0 ->
   w2d_self alpha A P sumW q2 = (- alpha / sqrt P + sumW + w2d_charge 0 alpha A P erf) * q2.
 Proof.
   intros H0 HP Ha HA. unfold w2d_self, w2d_charge.
-  replace (alpha * 0) with 0 by ring. rewrite H0.
-  replace (- alpha ^ 2 * 0 ^ 2) with 0 by ring. rewrite exp_0.
+  canon_arg erf. rewrite H0. canon_arg exp. rewrite exp_0.
   assert (Hs : sqrt P <> 0) by (apply Rgt_not_eq, sqrt_lt_R0; exact HP).
   assert (Hq : sqrt P * sqrt P = P) by (apply sqrt_sqrt; lra).
   remember (sqrt P) as s eqn:Es. rewrite <- Hq. field. repeat split; assumption.
@@ -34,8 +40,6 @@ Close Scope R_scope.
 
 (* ---- typed contractions ---- *)
 Lemma all_sites_typed : forallb site_typed contraction_sites = true.
-Proof. vm_compute. reflexivity. Qed.
-Lemma sites_nonempty : (8 <=? length contraction_sites)%nat = true.
 Proof. vm_compute. reflexivity. Qed.
 Lemma f6_rejected : site_typed f6_site = false.
 Proof. vm_compute. reflexivity. Qed.
